@@ -224,7 +224,7 @@ def _judge(ZConfig, ref, got, out):
     url = getattr(e, "url", None)
     if lineno != ref.lineno:
         out.append(("wrong-line:%s" % ref.rule.split(":")[0],
-                    "%s: lineno=%r expected %r (%s: %s)" % (ref.rule, lineno, ref.lineno, type(e).__name__, e.message)))
+                    "%s: lineno=%r expected %r (%s: %s)" % (ref.rule, lineno, ref.lineno, type(e).__name__, getattr(e, "message", e))))
     elif url != ref.url:
         out.append(("wrong-url:%s" % ref.rule.split(":")[0],
                     "%s: url=%r expected %r (%s)" % (ref.rule, url, ref.url, type(e).__name__)))
@@ -232,7 +232,9 @@ def _judge(ZConfig, ref, got, out):
         if not isinstance(e, ZConfig.DataConversionError):
             out.append(("conversion-error-wrong-class", "%s for %s" % (type(e).__name__, ref.rule)))
         else:
-            if e.value != ref.value:
+            if not hasattr(e, "value"):
+                out.append(("conversion-error-without-value", repr(e)))
+            elif e.value != ref.value:
                 out.append(("conversion-error-wrong-value", "value=%r expected %r" % (e.value, ref.value)))
             if not isinstance(getattr(e, "exception", None), ValueError):
                 out.append(("conversion-error-without-original-exception", repr(getattr(e, "exception", None))))
